@@ -105,6 +105,18 @@ CHECKS["C06"]["text"] += (" At connection level (Relay.tla) C06_OkMatchesOutcome
                           "per EVENT, written after add_event returned, TRUE iff the event was handed to the fan-out.")
 CHECKS["C06"]["technique"] += "; plus Relay.tla trace validation of the OK frames"
 
+CHECKS["C18"] = dict(
+    cat="model_checking", ref="DESIGN.md §5 C18",
+    note=("Trusted: TLC. The clock is injected (RateLimiter._timestamp), so time is exact; the deque state is read from "
+          "recent_commands. Bounds: 3 addresses, 2 commands, clock steps {0,1,30,61} s, three rule sets, arrival sequences "
+          "exhaustive to depth 3 (quick) / 4 (thorough) plus seeded long runs of 120-300 arrivals."),
+    text=("RateLimiter.tla contains a step-for-step transcription of is_limited / evaluate_rules / cleanup and, separately, the "
+          "contract of C18 over the history of decisions (window bound, no over-blocking, specific rule overrides, n=-1 exempts, "
+          "bounded state). TLC checks transcription => contract exhaustively (MC_RateLimiter, three rule sets), enumerates every "
+          "arrival sequence to a depth, and validates the run of the real class on each of them (decision and complete deque state "
+          "after every call) against the transcription while evaluating the contract on every decision."),
+    technique="TLA+ RateLimiter.tla (transcription refines contract) model-checked by TLC; all TLC-enumerated arrival sequences replayed on the real class; runs validated by TLC")
+
 NOT_YET = {}
 
 
